@@ -160,3 +160,45 @@ def source_facts_hold() -> Optional[str]:
                             any(isinstance(m, ast.AugAssign) and isinstance(m.op, ast.Add) and ast.unparse(m.target) == "transformed_operator" for m in n.body) for n in ast.walk(f)):
         return "_jordan_wigner_fermion_operator no longer accumulates the transformed terms one by one"
     return None
+
+
+# ---------------------------------------------------------------------------------------------------
+# normal ordering (openfermion convention: creation operators first, then, within each kind, decreasing mode index)
+def _normal_order_term(term: tuple, coef) -> Dict[tuple, complex]:
+    out: Dict[tuple, complex] = {}
+    stack = [(list(term), coef)]
+    while stack:
+        ops, c = stack.pop()
+        done = True
+        for i in range(len(ops) - 1):
+            (p, dp), (q, dq) = ops[i], ops[i + 1]
+            if dp == 0 and dq == 1:                      # a_p a+_q = delta_pq - a+_q a_p
+                swapped = ops[:i] + [ops[i + 1], ops[i]] + ops[i + 2:]
+                stack.append((swapped, -c))
+                if p == q:
+                    stack.append((ops[:i] + ops[i + 2:], c))
+                done = False
+                break
+            if dp == dq:
+                if p == q:
+                    done = False                      # a+_p a+_p = 0 = a_p a_p
+                    break
+                if p < q:
+                    swapped = ops[:i] + [ops[i + 1], ops[i]] + ops[i + 2:]
+                    stack.append((swapped, -c))
+                    done = False
+                    break
+        if done:
+            k = tuple(ops)
+            out[k] = out.get(k, 0) + c
+    return out
+
+
+def normal_ordered(op: OrdFermionOp) -> OrdFermionOp:
+    r = type(op)() if type(op) is not OrdFermionOp else OrdFermionOp()
+    for term, coef in op.terms.items():
+        for k, c in _normal_order_term(term, coef).items():
+            r.terms[k] = r.terms.get(k, 0) + c
+            if abs(r.terms[k]) < EQ_TOLERANCE:
+                del r.terms[k]
+    return r
